@@ -529,7 +529,24 @@ class Program:
             return self.consts[name]
         if name in self.enums:
             return self.enums[name]
+        v = self.macro_const(name)
+        if v is not None:
+            return v
         raise AnalysisBroken("constant `%s` not available in configuration %s" % (name, self.config))
+
+    def macro_const(self, name):
+        """value of a macro defined inside a .c unit: the folded constant of a node produced by its expansion"""
+        if not hasattr(self, "_macro"):
+            self._macro = {}
+            for f in self.fns.values():
+                for n in f.nodes:
+                    m = n.get("macro")
+                    if m and "cv" in n and n.get("mfull"):
+                        self._macro.setdefault(m, set()).add(int(n["cv"]))
+        vs = self._macro.get(name)
+        if vs and len(vs) == 1:
+            return next(iter(vs))
+        return None
 
     def fns_in(self, *basenames):
         return [f for f in self.fns.values() if os.path.basename(f.file) in basenames]
